@@ -172,6 +172,7 @@ def gen_spec(seed, profile=None):
             p_q = P('p_qcap_sched', 0.15)
         nd['qcap'] = 'inf' if r.random() > p_q else r.choice(P('qcaps', [0, 0, 1, 1, 2, 3]))
         nd['discipline'] = r.choice(P('disciplines', ['FIFO', 'FIFO', 'FIFO', 'LIFO', 'SIRO']))
+        nd['spf'] = r.choice(['last', 'least_busy']) if (r.random() < P('p_spf', 0.15) and kind in ('int', 'schedule') and nd['node_class'] == 'Node') else None
         nodes.append(nd)
     spec['nodes'] = nodes
     # priorities
@@ -202,7 +203,12 @@ def gen_spec(seed, profile=None):
         arr[c], srv[c], bat[c], ren[c], blk[c] = [], [], [], [], []
         for i in range(n):
             if r.random() < P('p_arrival', 0.65):
-                arr[c].append(rand_time_dist(r, lattice, scale=P('arr_scale', 1.0) * ncls, allow_zero=False)); any_arr = True
+                d_ = rand_time_dist(r, lattice, scale=P('arr_scale', 1.0) * ncls, allow_zero=False)
+                if lattice and d_['d'] == 'seq' and r.random() < P('p_zero_first_arrival', 0.15):
+                    d_['s'][0] = 0.0      # a first arrival at time 0 is a valid input
+                if not lattice and r.random() < P('p_composite_seq', 0.08):
+                    d_ = {'d': 'sum', 'l': {'d': 'seq', 's': [round(r.uniform(0.1, 1.5), 3) for _ in range(r.randint(2, 4))]}, 'r': d_}
+                arr[c].append(d_); any_arr = True
             else:
                 arr[c].append(None)
             srv[c].append(rand_time_dist(r, lattice, scale=P('srv_scale', 0.8), allow_zero=lattice and r.random() < P('p_zero_service', 0.2)))
@@ -239,8 +245,9 @@ def gen_spec(seed, profile=None):
         elif kind == 'nr':
             routers = []
             for i in range(n):
-                k = r.choice(P('node_routers', ['leave', 'direct', 'prob', 'jsq', 'lb', 'cycle']))
+                k = r.choice(P('node_routers', ['leave', 'direct', 'prob', 'jsq', 'lb', 'cycle']) + (['jockey', 'jockey'] if use_ren and n > 1 else []))
                 if k == 'leave': routers.append({'k': 'leave'})
+                elif k == 'jockey': routers.append({'k': 'jockey', 'to': r.choice([j for j in range(1, n + 1) if j != i + 1])})
                 elif k == 'direct': routers.append({'k': 'direct', 'to': r.choice(list(range(1, n + 1)) + [-1])})
                 elif k == 'prob':
                     m = r.randint(1, n); dests = r.sample(range(1, n + 1), m)
@@ -353,6 +360,17 @@ def make_servers(s):
     return ciw.Slotted(slots=list(s['slots']), slot_sizes=list(s['sizes']), capacitated=s['capacitated'], preemption=s['preempt'], offset=s['offset'])
 
 
+def _spf_last(srv, ind):
+    return -srv.id_number
+
+
+def _spf_least_busy(srv, ind):
+    return srv.busy_time
+
+
+SPF = {None: None, 'last': _spf_last, 'least_busy': _spf_least_busy}
+
+
 class JockeyLeave(ciw.routing.Leave):
     """Leave router whose renegers jockey to a fixed node (documented customisation point)."""
     def __init__(self, to):
@@ -420,6 +438,8 @@ def build(spec, logs=None, fault=None):
               routing={c: make_router(spec['routing'][c], n, rlog) for c in classes},
               service_disciplines=[getattr(ciw.disciplines, nd['discipline']) for nd in spec['nodes']],
               ps_thresholds=[nd['ps_threshold'] for nd in spec['nodes']])
+    if any(nd.get('spf') for nd in spec['nodes']):
+        kw['server_priority_functions'] = [SPF[nd.get('spf')] for nd in spec['nodes']]
     if spec.get('batching'):
         kw['batching_distributions'] = {c: [wrap(spec['batching'][c][i] or {'d': 'det', 'v': 1}, ('bat', i + 1, c)) for i in range(n)] for c in classes}
     if spec.get('reneging'):
